@@ -230,10 +230,14 @@ fn single_steps() {
 /// with_block that differs from the first in one field only
 fn block_differing_in_one_field() {
     let mut blk = mock_env().block;
-    match choose(3) {
+    match choose(6) {
         0 => blk.chain_id = "other-chain-9".into(),
         1 => blk.height += 1,
-        _ => blk.time = blk.time.plus_nanos(1),
+        2 => blk.time = blk.time.plus_nanos(1),
+        // values that look like "not set" are values too (seed C20f)
+        3 => blk.chain_id = String::new(),
+        4 => blk.height = 0,
+        _ => blk.time = Timestamp::from_nanos(0),
     }
     let app = match choose(4) {
         0 => AppBuilder::new().with_block(blk.clone()).build(|_, _, _| {}),
